@@ -64,7 +64,8 @@ def c03_stage(prop, tier, seed, replay):
     for i, (cs, cfg) in enumerate(cases):
         r = random.Random(cs)
         g = LabGen(cs, Profile(n_types=r.choice([25, 40, 55]), services=r.choice([2, 3, 4]), errors=r.choice([2, 4]), hostile_names=True,
-                               packages=["com.verif.lab", "com.verif.lab.sub", "com.verif.lab.sub.deep", "com.verif.other", "org.example", "com.verif.lab.type", "com.verif.async.mod"]))
+                               packages=["com.verif.lab", "com.verif.lab.sub", "com.verif.lab.sub.deep", "com.verif.other", "org.example", "com.verif.lab.type", "com.verif.async.mod",
+                                         "com.verif.left.api", "com.verif.right.api", "com.verif.left.api.v1", "com.verif.right.api.v1"]))
         ir = g.ir()
         name = "lab%d" % i
         specs.append({"name": name, "ir": ir, "cfg": cfg, "driver": lab.driver_source(ir, cfg, registry=False)})
